@@ -79,6 +79,14 @@ func execOp(s *exec.State, ev abs.V) {
 		if _, ok := s.Pk[h]; ok {
 			s.String(h)
 		}
+	case "lenacc":
+		if _, ok := s.Pk[h]; ok {
+			s.LenAcc(h)
+		}
+	case "marshalto":
+		if _, ok := s.Pk[h]; ok {
+			s.MarshalTo(h, abs.I(ev["size"]))
+		}
 	case "validate":
 		if _, ok := s.Pk[h]; ok {
 			s.Validate(h)
